@@ -75,6 +75,7 @@ class G:
         self.idem = idem        # conversions are idempotent on their own output
         self.idtype = spec[0] in ("int", "cont1d", "discrete", "image_visual", "image", "tuple", "cont2d")   # type in _get_identity_geometries()
         self.userg = None       # Fraction c: a user geometry c.x that brings its own gradient method g |-> c.g
+        self.idmap = ident      # par2fun and fun2par act as the identity on vectors (also: one-node steps, scaling by 1): stored matrix = parameter map
 
 
 def mk_geom(spec, obj=None):
@@ -120,8 +121,11 @@ def mk_geom(spec, obj=None):
         if proj != "mean":        # max / min: exact on any data, linear only over one-node steps
             gg = G(spec, g, "(GStepX %s %s)" % (cbool(proj == "max"), clist([cnat(c) for c in cnt])), "StepExpansion", ns, N, (N,), True, allone, False, allone)
             gg.nonlinear = not allone
+            gg.idmap = allone
             return gg
-        return G(spec, g, "(GStep %s)" % clist([cnat(c) for c in cnt]), "StepExpansion", ns, N, (N,), pow2, allone, False, allone)
+        gg = G(spec, g, "(GStep %s)" % clist([cnat(c) for c in cnt]), "StepExpansion", ns, N, (N,), pow2, allone, False, allone)
+        gg.idmap = allone
+        return gg
     if k == "kl":
         N, nm, decay, norm = spec[1], spec[2], spec[3], spec[4]
         g = obj if obj is not None else cg.KLExpansion(np.arange(N), decay_rate=decay, normalizer=norm, num_modes=nm)
@@ -158,8 +162,10 @@ def mk_geom(spec, obj=None):
         g = cg.MappedGeometry(obj, map=lambda x, c=c: c * x, imap=lambda x, c=c: x / c)
         coq = "(GScale %s %s %s)" % (enc_q(Fraction(num, den)), enc_q(Fraction(den, num)), inner.coq)
         unit = abs(num) == abs(den)
-        return G(spec, g, coq, "MappedGeometry", inner.par_dim, inner.fun_dim, inner.fun_shape, inner.exact,
-                 inner.orth and unit, False, inner.idem and num == den)
+        gg = G(spec, g, coq, "MappedGeometry", inner.par_dim, inner.fun_dim, inner.fun_shape, inner.exact,
+               inner.orth and unit, False, inner.idem and num == den)
+        gg.idmap = inner.idmap and num == den
+        return gg
     raise ValueError("unknown geometry spec %r" % (spec,))
 
 
@@ -656,9 +662,11 @@ def grad_coq_expr(m, meta, o):
     return " && ".join(parts)
 
 
-REPS = ["arr_par", "arr_fun", "cuqi_par", "cuqi_fun", "cuqi_par_eq", "cuqi_fun_eq", "cuqi_sub", "cuqi_other", "samples_par", "samples_fun"]
+REPS = ["arr_par", "arr_fun", "arr_fun_F", "arr_fun_strided", "cuqi_par", "cuqi_fun", "cuqi_fun_F", "cuqi_par_eq", "cuqi_fun_eq", "cuqi_sub", "cuqi_other",
+        "samples_par", "samples_fun"]
 COQ_REP = {"arr_par": "RArrayPar", "arr_fun": "RArrayFun", "cuqi_par": "RCuqiPar", "cuqi_fun": "RCuqiFun", "cuqi_other": "RCuqiOther",
            "cuqi_par_eq": "RCuqiPar", "cuqi_fun_eq": "RCuqiFun",      # an equal geometry that is another object
+           "arr_fun_F": "RArrayFun", "arr_fun_strided": "RArrayFun", "cuqi_fun_F": "RCuqiFun",   # function values in Fortran order / as a strided window
            "cuqi_sub": "RCuqiPar",                                    # an instance of a user subclass of CUQIarray
            "samples_par": "RArrayPar", "samples_fun": "RArrayFun"}
 
@@ -685,6 +693,12 @@ def observe_reps(m, meta):
                         out = fn(np.array(v, dtype=float))
                     elif rep == "arr_fun":
                         out = fn(fv.copy(), is_par=False)
+                    elif rep == "arr_fun_F":
+                        out = fn(np.asfortranarray(fv), is_par=False)
+                    elif rep == "arr_fun_strided":
+                        out = fn(out_layout("strided")(fv), is_par=False)
+                    elif rep == "cuqi_fun_F":
+                        out = fn(CUQIarray(np.asfortranarray(fv), is_par=False, geometry=gin))
                     elif rep == "cuqi_par":
                         out = fn(CUQIarray(np.array(v, dtype=float), is_par=True, geometry=gin))
                     elif rep == "cuqi_fun":
@@ -858,7 +872,7 @@ def property_oracle(m, meta, o):
         return (None, "")
     if op == "gm":
         stored = m.backing != "function" and meta["model"].get("tp") != "deconv2d" and not o.get("gm_fixed")
-        sig = ("LinearModel.get_matrix|stored-matrix+nonidentity-geometry" if stored and not (m.D.ident and m.R.ident)
+        sig = ("LinearModel.get_matrix|stored-matrix+nonidentity-geometry" if stored and not (m.D.idmap and m.R.idmap)
                else "LinearModel.get_matrix|%s,%s->%s" % (m.backing, m.D.family, m.R.family))
         if not stored and (getattr(m.D, "nonlinear", False) or getattr(m.R, "nonlinear", False)):
             sig = "LinearModel.get_matrix|nonlinear-projection:StepExpansion"
@@ -892,7 +906,7 @@ def property_oracle(m, meta, o):
             return ("T.T.forward(x) = %s but forward(x) = %s" % (o["TTf"], o["fx"]), sig)
         if o["G"] is None or o["TG"] is None or not same_mat(o["TG"], transpose(o["G"], m.D.par_dim), ex):
             stored = m.backing != "function" and meta["model"].get("tp") != "deconv2d" and not o.get("gm_fixed")
-            if stored and not (m.D.ident and m.R.ident):
+            if stored and not (m.D.idmap and m.R.idmap):
                 sig = "LinearModel.get_matrix|stored-matrix+nonidentity-geometry"
             elif not stored:
                 # both matrices are assembled column by column (from adjoint(e_i) and from forward(e_j)) and T.forward = adjoint
@@ -901,7 +915,7 @@ def property_oracle(m, meta, o):
             return ("T.get_matrix() is not get_matrix().T: %s vs %s" % (o["TG"], o["G"]), sig)
         if o["TG"] is not None and o["Tf"] is not None and not same_vec(matvec(o["TG"], y), o["Tf"], ex):
             stored = m.backing != "function" and meta["model"].get("tp") != "deconv2d" and not o.get("gm_fixed")
-            if stored and not (m.D.ident and m.R.ident):
+            if stored and not (m.D.idmap and m.R.idmap):
                 sig = "LinearModel.get_matrix|stored-matrix+nonidentity-geometry"     # T copies the stored function-space matrix
             else:
                 # T.forward(y) = adjoint(y) and T.get_matrix() = get_matrix().T were both confirmed above, so this says
